@@ -157,6 +157,9 @@ def c06_3(c: Ctx) -> None:
             if not payloads:
                 c.ok(where(u, call), 'gather(*tasks) awaits tasks classified at their creation sites')
                 continue
+        elif call_name(call) == 'TaskGroup' and not call.args:
+            c.ok(where(u, call), 'TaskGroup(): its tasks are classified at their create_task sites')
+            continue
         else:
             payloads = call.args[:1]
         if not payloads or not all(isinstance(p, ast.Call) for p in payloads):
